@@ -178,13 +178,16 @@ func (lm *levelManager) recover() int64 {
 	return maxVersion
 }
 
+// searchLowerBound returns the newest version of the user key of key that is
+// not newer than the timestamp of key, looking at every table: tables of a
+// level may overlap and compaction does not keep newer data above older data,
+// so the first match in level order is not necessarily the newest one.
 func (lm *levelManager) searchLowerBound(key types.Key) (types.Entry, bool) {
 	lm.mu.Lock()
 	defer lm.mu.Unlock()
 
-	if len(lm.levels) == 0 {
-		return types.Entry{}, false
-	}
+	var best types.Entry
+	var found bool
 
 	for level, tables := range lm.levels {
 		for e := tables.Front(); e != nil; e = e.Next() {
@@ -197,7 +200,7 @@ func (lm *levelManager) searchLowerBound(key types.Key) (types.Entry, bool) {
 			}
 
 			// determine which data block the key is in
-			dataBlockHandle, ok := th.dataBlockIndex.Search(key)
+			dataBlockHandle, ok := th.dataBlockIndex.SearchLowerBound(key)
 			if !ok {
 				// not in this sstable, search next one
 				continue
@@ -205,13 +208,16 @@ func (lm *levelManager) searchLowerBound(key types.Key) (types.Entry, bool) {
 
 			// in this sstable, search according to data block
 			entry, ok := lm.fetchAndSearchLowerBound(key, level, th.levelIdx, dataBlockHandle)
-			if ok {
-				return entry, true
+			if !ok || !types.IsSameKey(key, entry.Key) {
+				continue
+			}
+			if !found || types.CompareKeys(entry.Key, best.Key) < 0 {
+				best, found = entry, true
 			}
 		}
 	}
 
-	return types.Entry{}, false
+	return best, found
 }
 
 // TODO: replace with iterator
